@@ -5,6 +5,7 @@ import (
 
 	"reduction.dev/reduction/proto/workerpb"
 	"reduction.dev/reduction/util/sliceu"
+	"reduction.dev/reduction/util/vhook"
 )
 
 type checkpoint struct {
@@ -45,7 +46,9 @@ func (c *checkpoint) alignSender(senderID string) (wait func()) {
 
 	if _, ok := c.srIDs[senderID]; !ok {
 		return func() {
+			vhook.At("operator.align.parked", senderID)
 			<-c.allBarriersReceived
+			vhook.At("operator.align.released", senderID)
 		}
 	}
 	return func() {}
